@@ -163,6 +163,8 @@ def run_case(case):
                 res = {'status': 'ok', 'value': canon_val(spec.sampling_violation_counter)}
             elif kind == 'print':
                 res = {'status': 'ok', 'value': spec.spec_print()}
+            elif kind == 'ast':
+                res = {'status': 'ok', 'value': [ast_dump(n) for n in spec.ast.specs]}
             elif kind == 'explain':
                 spec.explain()
                 ex = spec.explainer.explanations if hasattr(spec.explainer, 'explanations') else None
@@ -173,6 +175,35 @@ def run_case(case):
             res = classify(exc)
         out['calls'].append(res)
     return out
+
+
+_LABEL = {'Neg': 'not', 'Conjunction': 'and', 'Disjunction': 'or', 'Implies': 'implies', 'Iff': 'iff', 'Xor': 'xor',
+          'Rise': 'rise', 'Fall': 'fall', 'Always': 'always', 'Eventually': 'eventually', 'Historically': 'historically', 'Once': 'once',
+          'Previous': 'prev', 'Next': 'next', 'StrongPrevious': 'sprev', 'StrongNext': 'snext', 'Until': 'until', 'Since': 'since',
+          'Abs': 'abs', 'Sqrt': 'sqrt', 'Exp': 'exp', 'Ln': 'ln', 'Negate': 'neg', 'Pow': 'pow', 'Log': 'log',
+          'Addition': 'add', 'Subtraction': 'sub', 'Multiplication': 'mul', 'Division': 'div',
+          'TimedAlways': 'always_t', 'TimedEventually': 'eventually_t', 'TimedHistorically': 'historically_t', 'TimedOnce': 'once_t',
+          'TimedUntil': 'until_t', 'TimedSince': 'since_t', 'TimedPrecedes': 'precedes_t'}
+
+
+def ast_dump(node):
+    """canonical s-expression of an rtamt AST node (same format as Elab.dump of the model)"""
+    from fractions import Fraction
+    cls = type(node).__name__
+    if cls == 'Variable':
+        return '(var %s)' % (node.var if not node.field else node.var + '.' + node.field)
+    if cls == 'Constant':
+        return '(const %s)' % Fraction(node.val)
+    from rtamt.syntax.node.binary_node import BinaryNode
+    arity = 2 if isinstance(node, BinaryNode) else 1
+    kids = ' '.join(ast_dump(c) for c in node.children[:arity])
+    if cls == 'Predicate':
+        op = {'<': 'lt', '<=': 'leq', '==': 'eq', '!=': 'neq', '>': 'gt', '>=': 'geq'}[str(node.operator)]
+        return '(pred %s %s)' % (op, kids)
+    lab = _LABEL[cls]
+    if cls.startswith('Timed'):
+        return '(%s %s %s %s %s %s)' % (lab, Fraction(node.begin), node.begin_unit or '_', Fraction(node.end), node.end_unit or '_', kids)
+    return '(%s %s)' % (lab, kids)
 
 
 def setup_spec(case):
